@@ -1173,6 +1173,18 @@ func (m *StateMachine) recordPrevote(
 	if m.isParticipating(rlc) {
 		// Record to the action store first.
 		h, r := rlc.H, rlc.R
+
+		// If we restarted within this round, we may already have recorded a prevote for it,
+		// and the consensus strategy may answer differently the second time.
+		// The recorded prevote stands: we must never sign a second, different one.
+		recordedSig, recordedTarget, recorded, ok := m.recordedVote(ctx, h, r, false)
+		if !ok {
+			return false
+		}
+		if recorded {
+			targetHash = recordedTarget
+		}
+
 		vt := tmconsensus.VoteTarget{
 			Height: h, Round: r,
 			BlockHash: targetHash,
@@ -1186,7 +1198,10 @@ func (m *StateMachine) recordPrevote(
 			return false
 		}
 
-		if err := m.aStore.SavePrevoteAction(ctx, m.signer.PubKey(), vt, sig); err != nil {
+		if recorded {
+			// Same content as before; release the signature that is on record.
+			sig = recordedSig
+		} else if err := m.aStore.SavePrevoteAction(ctx, m.signer.PubKey(), vt, sig); err != nil {
 			glog.HRE(m.log, h, r, err).Error("Failed to save prevote to action store")
 			return false
 		}
@@ -1257,6 +1272,36 @@ func (m *StateMachine) handlePrecommitViewUpdate(
 	}
 }
 
+// recordedVote looks up the action store for a prevote (or precommit)
+// that this validator already recorded for the given height and round.
+// ok is false if the action store failed; that is already logged.
+func (m *StateMachine) recordedVote(
+	ctx context.Context, h uint64, r uint32, precommit bool,
+) (sig []byte, targetHash string, recorded, ok bool) {
+	ra, err := m.aStore.LoadActions(ctx, h, r)
+	if err != nil {
+		if errors.Is(err, tmconsensus.RoundUnknownError{WantHeight: h, WantRound: r}) {
+			// Nothing recorded for this round yet.
+			return nil, "", false, true
+		}
+
+		glog.HRE(m.log, h, r, err).Error("Failed to load recorded actions before voting")
+		return nil, "", false, false
+	}
+
+	if precommit {
+		if ra.PrecommitSignature == "" {
+			return nil, "", false, true
+		}
+		return []byte(ra.PrecommitSignature), ra.PrecommitTarget, true, true
+	}
+
+	if ra.PrevoteSignature == "" {
+		return nil, "", false, true
+	}
+	return []byte(ra.PrevoteSignature), ra.PrevoteTarget, true, true
+}
+
 func (m *StateMachine) recordPrecommit(
 	ctx context.Context,
 	rlc *tsi.RoundLifecycle,
@@ -1268,6 +1313,17 @@ func (m *StateMachine) recordPrecommit(
 
 	// Record to the action store first.
 	h, r := rlc.H, rlc.R
+
+	// As with prevotes, a precommit already on record for this round
+	// (from before a restart) stands, whatever the consensus strategy answers now.
+	recordedSig, recordedTarget, recorded, ok := m.recordedVote(ctx, h, r, true)
+	if !ok {
+		return false
+	}
+	if recorded {
+		targetHash = recordedTarget
+	}
+
 	vt := tmconsensus.VoteTarget{
 		Height: h, Round: r,
 		BlockHash: targetHash,
@@ -1281,7 +1337,10 @@ func (m *StateMachine) recordPrecommit(
 		return false
 	}
 
-	if err := m.aStore.SavePrecommitAction(ctx, m.signer.PubKey(), vt, sig); err != nil {
+	if recorded {
+		// Same content as before; release the signature that is on record.
+		sig = recordedSig
+	} else if err := m.aStore.SavePrecommitAction(ctx, m.signer.PubKey(), vt, sig); err != nil {
 		glog.HRE(m.log, h, r, err).Error("Failed to save precommit to action store")
 		return false
 	}
